@@ -4,13 +4,16 @@ core/operators.py Integrator).
 
 Three kinds of cases:
 * coordinate-class cases (`cls` present; generators and the independent geodesy in c17coords.py): one track whose positions
-  are ENUCoords / GeoCoords / ECEFCoords, an op word over {a, s, c, d, o}; model `Model/CinematicsCoords.lean` (driver
+  are ENUCoords / GeoCoords / ECEFCoords, an op word over {a, s, S, c, d, o}; model `Model/CinematicsCoords.lean` (driver
   `C17.coords`);
 * single-track cases (`kind` enum / lattice-* / float* / pre-* / single): one fresh track, optional features present
-  beforehand, an op word over {a = computeAbsCurv, s = estimate_speed}; model `Model/Cinematics.lean` (driver `C17.run`);
+  beforehand, an op word over {a = computeAbsCurv, s = estimate_speed(track), S = track.estimate_speed()}; model
+  `Model/Cinematics.lean` (driver `C17.run`);
 * world histories (`hist` present; generators and the oracle's bookkeeping in c17world.py): observations shared between
   tracks, every entry point, in-place edits of positions and timestamp fields; model `Model/CinematicsTab.lean`
-  (driver `C17.world`). The oracle recomputes from the CURRENT positions and stamps after every operation."""
+  (driver `C17.world`). The oracle recomputes from the CURRENT positions and stamps after every operation.
+In every stream the stamps may carry `zone` fields ("zones" of the case; a track merged from loggers set to different zones):
+every field of every stamp, zone included, must be what it was after every computation."""
 import math, calendar, itertools, time as _time
 from fractions import Fraction
 from engine import Prop, fbits, bitsf, ratstr, parse_rat, tok_list, untok, close, err_kind
@@ -50,10 +53,14 @@ class P(Prop):
         ("TracklibVerif.Props.C17", "TV.C17.abscurv_monotone_rounded", "abs_curv never decreases WITHOUT exact arithmetic: any preorder, only 0 <= sqrt x and (0 <= d -> a <= a + d) — the two facts of correctly rounded IEEE addition / sqrt — are assumed"),
         ("TracklibVerif.Props.C17", "TV.C17.curvabs_table", "computeCurvAbsBetweenTwoPoints on a lawful table only reads and (exact arithmetic) returns absc (n-1), the value abs_curv ends at"),
         ("TracklibVerif.Props.C17", "TV.C17.spec_table_lawful", "C01's specification table (name -> column) satisfies the laws of a feature table"),
+        ("TracklibVerif.Props.C17", "TV.C17.dict_rows_table_lawful", "C01's dict-and-rows table St of a single track (name -> index dict, one features row per observation) satisfies the laws of a feature table under C01's alignment invariant: every table theorem holds on the table as Python lays it out"),
         ("TracklibVerif.Props.C17", "TV.C17.shared_world_lawful", "the world of Obs OBJECTS shared between tracks (per-object features list, per-track name->index dict) satisfies the laws for the track in focus whenever its objects carry AT LEAST as many slots as its dict lists (extra slots from other tracks allowed)"),
         ("TracklibVerif.Props.C17", "TV.C17.abscurv_shared", "computeAbsCurv(track k) as one step of a history on shared observations: returns [absc 0..] of the current positions whatever foreign slots the objects carry; track k reads it under abs_curv"),
         ("TracklibVerif.Props.C17", "TV.C17.speed_shared", "estimate_speed(track k) on shared observations: speed column of the current positions and of the absolute times of the CURRENT timestamp fields"),
-        ("TracklibVerif.Props.C17", "TV.C17.positions_and_stamps_unchanged", "for EVERY world (aligned or not, also on exceptions) and every feature operation / entry point: position and stamp of every observation object and the reference list of every track are unchanged"),
+        ("TracklibVerif.Props.C17", "TV.C17.positions_and_stamps_unchanged", "for EVERY world (aligned or not, also on exceptions) and every feature operation / entry point (the method track.estimate_speed() included): position and stamp — the seven calendar fields and the zone field — of every observation object and the reference list of every track are unchanged"),
+        ("TracklibVerif.Props.C17", "TV.C17.speed_method_is_function", "Track.estimate_speed() (the method of core/track.py, no kernel) is estimate_speed(track) of algo/cinematics.py on every world: same result, same final world"),
+        ("TracklibVerif.Props.C17", "TV.C17.zone_not_read", "no operation on features reads the zone field of a stamp: on a world whose zones were rewritten by any function it returns the same value / raises the same exception and ends in the rewritten final world — the elapsed time speed divides by is the difference of the clock readings"),
+        ("TracklibVerif.Props.C17", "TV.C17.same_result_whatever_zones", "two worlds differing in zone fields only give the same result of every operation on features and final worlds differing in zones only"),
         ("TracklibVerif.Props.C17", "TV.C17.class_distance", "which distance the features use per coordinate class: ENU -> sqrt(dE^2+dN^2); Geo -> norm2D of self.toENUCoords(point) (East/North in the local frame at `point`); ECEF -> refused by Obs.distance2DTo, AttributeError on position.distance2DTo"),
         ("TracklibVerif.Props.C17", "TV.C17.enu_class_is_cinematics", "on ENU tracks the class-dispatching programs are computeAbsCurv / estimate_speed of the first model (no exception, third coordinate not read)"),
         ("TracklibVerif.Props.C17", "TV.C17.abscurv_prefix_coords", "T1 for every class with a planimetric distance (ENU, Geo): s[0]=0, s[i+1]=s[i]+d_class(P[i+1],P[i]), abs_curv stored, ds removed; any scalar type (Float with libm included)"),
@@ -68,7 +75,6 @@ class P(Prop):
     ]
     partial = []
     open_statements = ["IEEE rounding of sqrt / + / division is outside the theorems (ordered-field statement; the recurrences abscurv_prefix / abscurv_table / speed_table hold for any scalar type, so also for the Float operations in Python's order); sampled by the transfer check with rel. tolerance 1e-9",
-                       "the laws are proved for the specification table and for the world of shared observations; for C01's dict-and-rows table `St` of a single track they follow from C01's simulation theorems and are not restated here",
                        "world histories (shared observations, in-place edits) are generated for ENUCoords only; Geo / ECEF tracks are single-track cases (Model/CinematicsCoords.lean is a list model, not yet an instance of the table laws)",
                        "geo_distance_horizontal is over the reals: the rounding of the geodetic -> ECEF -> local-frame chain (sin, cos, atan2, pow, sqrt of libm) is outside the theorems; the oracle bounds it by 1e-6 m against its own geodesy (measured < 1e-8 m)",
                        "GeoCoords.toENUCoords is modelled for STANDARD_PROJ == 1 (the module constant of this tree) only"]
@@ -78,7 +84,8 @@ class P(Prop):
                 "Differentiator.execute; core/utils.py addListToAF; algo/cinematics.py computeAbsCurv, estimate_speed, computeCurvAbsBetweenTwoPoints; "
                 "core/track.py addAnalyticalFeature (IndexError -> NaN), createAnalyticalFeature (append + index len(dico)), removeAnalyticalFeature, "
                 "get/setObsAnalyticalFeature, getAnalyticalFeature, __setitem__(name, list), estimate_speed, getAbsCurv/getSpeed, length, isSorted, duration, getT, "
-                "__add__, extract, __getitem__(slice), copy (deep copy with memo); core/obs_time.py toAbsTime / __sub__ from the CURRENT fields (C03's ObsTimeG.toAbsG); "
+                "__add__, extract, __getitem__(slice), copy (deep copy with memo), Track.estimate_speed (the method, kernel=None: its own model operation), setTimeZone; "
+                "core/obs_time.py toAbsTime / __sub__ from the CURRENT fields (C03's ObsTimeG.toAbsG), the zone field of ObsTime (carried by every observation object of the world; read by no feature program); "
                 "two models: Model/Cinematics.lean (a track = lists + name->column map) and Model/CinematicsTab.lean (the programs on the Track API of C01's "
                 "Model/Features.lean, instantiated at the specification table and at a WORLD of observation objects shared between tracks); "
                 "Model/CinematicsCoords.lean: the same programs on a track of one coordinate class (ENU / Geo / ECEF), with the dispatch of distance2DTo and the exceptions")
@@ -87,18 +94,20 @@ class P(Prop):
                "single-track stream (`run`): ObsTime.toAbsTime() values are computed by the harness as sec + ms/1000.0; world stream: the model computes them from the timestamp fields (C03's toAbsG)"]
     rule = ("exhaustive: all tracks of 2..4 (quick) / 2..5 (thorough) fixes whose legs are k*(3,4), k in {-1,0,1,2}, with dt in {0,1,2} s, op word 'asas'; "
             "all histories of 2 (quick) / 3 (thorough) operations over {computeAbsCurv, estimate_speed on a track and on a section sharing its observations, "
-            "addAnalyticalFeature(speed), remove abs_curv / speed, in-place edit of a position / of a timestamp field, duration()} on a 4-fix pool; "
-            "random single-track cases: exact lattice tracks at Rat, float tracks (short 1e-6 / long 1e7 legs, repeated positions and timestamps, millisecond stamps) at Float, "
-            "tracks with features present beforehand, op words over {a, s}; "
+            "addAnalyticalFeature(speed), remove abs_curv / speed, in-place edit of a position / of a timestamp field / of a zone field, duration()} on a 4-fix pool; "
+            "random single-track cases (2..8 fixes, one in 40 of 16..300 fixes): exact lattice tracks at Rat, float tracks (short 1e-6 / long 1e7 legs, repeated positions and timestamps, millisecond stamps) at Float, "
+            "tracks with features present beforehand, op words over {a = computeAbsCurv, s = estimate_speed(track), S = track.estimate_speed()}; 25 % of these tracks carry zone fields "
+            "(one non-zero zone, two loggers set to different zones, a zone per fix); "
             "random WORLD histories (c17world.py): a pool of 3..8 observations, tracks made by +, extract, slicing (shared Obs objects) and copy(), every entry point "
             "(computeAbsCurv, estimate_speed function / method, addAnalyticalFeature(speed | ds), operate(INTEGRATOR | DIFFERENTIATOR), length, "
             "computeCurvAbsBetweenTwoPoints, getAbsCurv / getSpeed / track[name], removeAnalyticalFeature, track[name] = list, isSorted / duration / getT), in-place edits of "
-            "positions (setX / setObsAnalyticalFeature / attribute) and of timestamp fields (sec, min, ms), directed templates (sum of a computed and a fresh segment, section then "
+            "positions (setX / setObsAnalyticalFeature / attribute) and of timestamp fields (sec, min, ms, zone; setTimeZone), 35 % of the pools stamped with zone fields (one zone, two loggers, per fix), directed templates (sum of a computed and a fresh segment, section then "
             "parent, compute-edit-remove-recompute, time evaluation then field edit then speed, all orders, deep copy) plus free random histories; the oracle keeps its own "
-            "bookkeeping and checks every fresh (or still valid) computation against the CURRENT positions and stamps; "
+            "bookkeeping and checks every fresh (or still valid) computation against the CURRENT positions and stamps, and after EVERY operation every field of every stamp (zone included) of every observation; "
+            "elapsed time = difference of the clock readings; between two stamps of DIFFERENT zones the difference of the instants is accepted as well (the statement does not say which); "
             "COORDINATE CLASSES (c17coords.py): directed walks (Paris, date line, equator, pole, climb) as GeoCoords and as ECEFCoords, then random tracks of 1..8 fixes, 60 % GeoCoords "
             "(steps 0 / 1e-8 .. 1 degree along a parallel, a meridian or oblique, heights -400..9000 m with jumps, longitudes wrapping at +-180, latitudes up to the poles), 20 % ENUCoords, 20 % ECEFCoords, "
-            "op words over {computeAbsCurv, estimate_speed, computeCurvAbsBetweenTwoPoints, addAnalyticalFeature(ds), Obs.distance2DTo of consecutive fixes}, features present beforehand; the oracle recomputes "
+            "op words over {computeAbsCurv, estimate_speed (function, method), computeCurvAbsBetweenTwoPoints, addAnalyticalFeature(ds), Obs.distance2DTo of consecutive fixes}, features present beforehand, 25 % with zone fields; the oracle recomputes "
             "the planimetric distance of Geo fixes with its own geodesy (tangent frame at either fix accepted, 1e-6 m allowance) and checks positions, their CLASS and the stamps after every case, refused or not. "
             "non-trivial = at least 2 fixes, one non-zero leg (world: and at least one computation; coords: a class that defines a planimetric distance)")
 
@@ -116,13 +125,13 @@ class P(Prop):
         self.curvAbsBetween, self.ds, self.speed, self.Operator = computeCurvAbsBetweenTwoPoints, ds, speed, Operator
 
     # ---------------------------------------------------------------- generators
-    OPS = ["a", "s", "as", "sa", "aa", "ss", "asas", "aas", "ssa", "saas"]
+    OPS = ["a", "s", "as", "sa", "aa", "ss", "asas", "aas", "ssa", "saas", "S", "aS", "Sa", "SS", "sS", "aSa"]   # S = the method track.estimate_speed()
 
     def exhaustive_scopes(self, tier):
         n = 5 if tier == "thorough" else 4
         return ["all tracks of 2..%d fixes with legs k*(3,4), k in {-1,0,1,2} and elapsed times in {0,1,2} s per leg (op word asas)" % n,
                 "all histories of %d operations over {computeAbsCurv / estimate_speed on a 4-fix track and on a 2-fix section sharing its observations, "
-                "addAnalyticalFeature(speed), remove abs_curv, remove speed, in-place edit of a position, in-place edit of a timestamp field, duration()}"
+                "addAnalyticalFeature(speed), remove abs_curv, remove speed, in-place edit of a position, in-place edit of a timestamp field, duration(), in-place edit of a zone field}"
                 % (3 if tier == "thorough" else 2)]
 
     def cases(self, rng, tier):
@@ -153,7 +162,7 @@ class P(Prop):
         # one track per coordinate class (c17coords.py): directed walks first, then random
         out += C.enum_coords()
         for _ in range(nrand):
-            out.append(C.gen_coords(rng, self.times))
+            out.append(self.with_zones(rng, C.gen_coords(rng, self.times)))
         # single-fix tracks (outside the statement: correspondence only)
         for _ in range(20):
             out.append({"kind": "single", "mode": "q", "pos": [[rng.randrange(-5, 5), rng.randrange(-5, 5), 1]],
@@ -169,8 +178,12 @@ class P(Prop):
             t.append(t[-1] + d)
         return t
 
+    def size(self, rng):
+        """2..8 fixes; one track in 40 is long (a branch taken only above some size must not escape)"""
+        return rng.choice([16, 33, 64, 129, 300]) if rng.random() < 0.025 else rng.randrange(2, 9)
+
     def lattice(self, rng):
-        n = rng.randrange(2, 9)
+        n = self.size(rng)
         shape = rng.choice(["line", "rect", "axis"])
         bx, by = rng.randrange(-50, 50), rng.randrange(-50, 50)
         pos = []
@@ -195,10 +208,25 @@ class P(Prop):
         if rng.random() < 0.3:   # half-integer offset keeps everything dyadic
             pos = [[p[0] + 0.5, p[1] - 0.5] for p in pos]
         pos = [[p[0], p[1], rng.choice([0, 0, 1, -7, 100, rng.randrange(-50, 50)])] for p in pos]
-        return {"kind": "lattice-" + shape, "mode": "q", "pos": pos, "tms": self.times(rng, n), "feats": [], "ops": rng.choice(self.OPS)}
+        return self.with_zones(rng, {"kind": "lattice-" + shape, "mode": "q", "pos": pos, "tms": self.times(rng, n), "feats": [], "ops": rng.choice(self.OPS)})
+
+    def with_zones(self, rng, case):
+        """the `zone` field of the stamps (not read by toAbsTime): one other zone for the whole track, two loggers set to
+        different zones, a zone per fix; most tracks keep zone 0 (no "zones" key)"""
+        r, n = rng.random(), len(case["pos"])
+        if r < 0.25:
+            zs = [0, 1, 2, -5, 12, -11]
+            if r < 0.06 or n < 2:
+                case["zones"] = [rng.choice(zs[1:])] * n
+            elif r < 0.18:
+                m = rng.randrange(1, n)
+                case["zones"] = [rng.choice(zs)] * m + [rng.choice(zs)] * (n - m)
+            else:
+                case["zones"] = [rng.choice(zs[:4]) for _ in range(n)]
+        return case
 
     def floaty(self, rng):
-        n = rng.randrange(2, 9)
+        n = self.size(rng)
         x, y = rng.uniform(-1000, 1000), rng.uniform(-1000, 1000)
         pos = []
         for _ in range(n):
@@ -208,7 +236,7 @@ class P(Prop):
                 a = rng.uniform(0, 2 * math.pi)
                 x, y = x + step * math.cos(a), y + step * math.sin(a)
         ms = rng.random() < 0.3
-        return {"kind": "float-ms" if ms else "float", "mode": "f", "pos": pos, "tms": self.times(rng, n, ms), "feats": [], "ops": rng.choice(self.OPS)}
+        return self.with_zones(rng, {"kind": "float-ms" if ms else "float", "mode": "f", "pos": pos, "tms": self.times(rng, n, ms), "feats": [], "ops": rng.choice(self.OPS)})
 
     def prefeat(self, rng):
         c = self.lattice(rng) if rng.random() < 0.6 else self.floaty(rng)
@@ -226,19 +254,28 @@ class P(Prop):
     def describe1(self, case):
         n = len(case["pos"])
         t = case["tms"]
-        return {"kind": case["kind"], "n": n, "ops": case["ops"],
+        return {"kind": case["kind"], "n": n, "ops": case["ops"], "zones": self.zone_tag(W.zones_of(case)),
                 "repeated_pos": any(l == 0 for l in self.legs(case)), "repeated_time": any(t[i] == t[i + 1] for i in range(n - 1))}
+
+    @staticmethod
+    def zone_tag(zones):
+        return "0" if not any(zones) else "one" if len(set(zones)) == 1 else "mixed"
 
     def nontrivial1(self, case):
         return len(case["pos"]) >= 2 and any(l > 0 for l in self.legs(case))
 
     # ---------------------------------------------------------------- implementation
+    def stamp(self, tms, zone=0):
+        """an ObsTime object reading `tms` milliseconds after 1970-01-01 00:00:00 on a clock set to `zone`"""
+        t = self.T.readUnixTime(tms // 1000)
+        t.ms = tms % 1000
+        t.zone = zone
+        return t
+
     def build(self, case):
         tr = self.Track([], 1)
-        for p, tms in zip(case["pos"], case["tms"]):
-            t = self.T.readUnixTime(tms // 1000)
-            t.ms = tms % 1000
-            tr.addObs(self.Obs(self.ENU(p[0], p[1], p[2]), t))
+        for p, tms, z in zip(case["pos"], case["tms"], W.zones_of(case)):
+            tr.addObs(self.Obs(self.ENU(p[0], p[1], p[2]), self.stamp(tms, z)))
         for name, col in case["feats"]:
             tr.createAnalyticalFeature(name)
             for i, v in enumerate(col):
@@ -249,17 +286,18 @@ class P(Prop):
         tr = self.build(case)
         rets = []
         for op in case["ops"]:
-            r = self.computeAbsCurv(tr) if op == "a" else self.estimate_speed(tr)
+            r = self.computeAbsCurv(tr) if op == "a" else tr.estimate_speed() if op == "S" else self.estimate_speed(tr)
             rets.append(list(r))
         feats = [[nm, list(tr.getAnalyticalFeature(nm))] for nm in tr.getListAnalyticalFeatures()]
-        xyz, t, tms = [], [], []
+        xyz, t, tms, zones = [], [], [], []
         for i in range(tr.size()):
             o = tr.getObs(i)
             xyz.append([o.position.getX(), o.position.getY(), o.position.getZ()])
             s = o.timestamp
             t.append(s.toAbsTime())
             tms.append(calendar.timegm((s.year, s.month, s.day, s.hour, s.min, s.sec)) * 1000 + s.ms)
-        return {"rets": rets, "feats": feats, "xyz": xyz, "t": t, "tms": tms, "n": tr.size()}
+            zones.append(s.zone)
+        return {"rets": rets, "feats": feats, "xyz": xyz, "t": t, "tms": tms, "zones": zones, "n": tr.size()}
 
     # ---------------------------------------------------------------- model
     def abs_t(self, tms):
@@ -275,7 +313,8 @@ class P(Prop):
         else:
             ts = tok_list(fbits((t // 1000) + (t % 1000) / 1000.0) for t in case["tms"])
         feats = tok_list((nm + ":" + tok_list(enc(v) for v in col) for nm, col in case["feats"]), sep=";")
-        return ["C17.run %s %s %s %s %s %s" % (case["mode"], xs, ys, ts, feats, case["ops"])]
+        # the method track.estimate_speed() (kernel None) is the function: one model operation
+        return ["C17.run %s %s %s %s %s %s" % (case["mode"], xs, ys, ts, feats, case["ops"].replace("S", "s"))]
 
     def decode1(self, case, replies):
         r = replies[0]
@@ -291,7 +330,7 @@ class P(Prop):
             feats.append([nm, [dec(w) for w in untok(col)]])
         xs, ys, ts = [dec(w) for w in untok(xs)], [dec(w) for w in untok(ys)], [dec(w) for w in untok(ts)]
         return {"rets": rets, "feats": feats, "xyz": [[x, y, p[2]] for x, y, p in zip(xs, ys, case["pos"])],
-                "t": ts, "tms": list(case["tms"]), "n": len(xs)}
+                "t": ts, "tms": list(case["tms"]), "zones": W.zones_of(case), "n": len(xs)}
 
     # ---------------------------------------------------------------- oracle (transfer)
     def spec1(self, case, out):
@@ -303,6 +342,9 @@ class P(Prop):
             return "positions changed: %s -> %s" % (pos, out["xyz"])
         if out["tms"] != tms:
             return "timestamps changed: %s -> %s" % (tms, out["tms"])
+        zones = W.zones_of(case)
+        if out["zones"] != zones:
+            return "timestamps changed: their zone fields were %s, are %s" % (zones, out["zones"])
         given = {nm for nm, _ in case["feats"]}
         after = dict((nm, col) for nm, col in out["feats"])
         for nm, col in case["feats"]:
@@ -338,24 +380,9 @@ class P(Prop):
             else:
                 if "speed" in given:
                     continue      # an existing `speed` feature is returned as it is
-                v = ret
-                if len(v) != n:
-                    return "speed has %d values for %d fixes" % (len(v), n)
-                tmax = max(abs(t) for t in tms) / 1000.0
-                for i in range(n):
-                    a, b = (1, 0) if i == 0 else (n - 1, n - 2) if i == n - 1 else (i + 1, i - 1)
-                    el = Fraction(tms[a] - tms[b], 1000)
-                    if el == 0:
-                        if not isnan(v[i]):
-                            return "speed[%d] = %r although no time elapsed between fixes %d and %d (NaN expected)" % (i, v[i], b, a)
-                        continue
-                    d = math.hypot(pos[a][0] - pos[b][0], pos[a][1] - pos[b][1])
-                    want = d / float(el)
-                    # float seconds since 1970 carry an absolute error of one ulp each when milliseconds are present
-                    rel = 1e-9 + (4 * ulp(tmax) / float(el) if any(t % 1000 for t in tms) else 0.0)
-                    if isnan(v[i]) or abs(v[i] - want) > rel * max(abs(want), 1e-300):
-                        return ("speed[%d] = %r, expected distance(fix %d, fix %d) / elapsed = %r / %s = %r"
-                                % (i, v[i], b, a, d, float(el), want))
+                msg = self.chk_speed(ret, pos, tms, zones)
+                if msg:
+                    return msg
         return None
 
     # ---------------------------------------------------------------- shrinking / search
@@ -366,11 +393,16 @@ class P(Prop):
                 yield dict(case, ops=case["ops"][:i] + case["ops"][i + 1:])
         if n > 2:
             for i in range(n):
-                yield dict(case, pos=case["pos"][:i] + case["pos"][i + 1:], tms=case["tms"][:i] + case["tms"][i + 1:],
-                           feats=[[nm, col[:i] + col[i + 1:]] for nm, col in case["feats"]])
+                c = dict(case, pos=case["pos"][:i] + case["pos"][i + 1:], tms=case["tms"][:i] + case["tms"][i + 1:],
+                         feats=[[nm, col[:i] + col[i + 1:]] for nm, col in case["feats"]])
+                if case.get("zones"):
+                    c["zones"] = case["zones"][:i] + case["zones"][i + 1:]
+                yield c
         if case["feats"]:
             for i in range(len(case["feats"])):
                 yield dict(case, feats=case["feats"][:i] + case["feats"][i + 1:])
+        if any(case.get("zones") or []):
+            yield {k: v for k, v in case.items() if k != "zones"}
         if any(p[2] != 0 for p in case["pos"]):
             yield dict(case, pos=[[p[0], p[1], 0] for p in case["pos"]])
         t0 = case["tms"][0]
@@ -383,7 +415,7 @@ class P(Prop):
         for _ in range(20):
             yield W.gen_world(rng)
         for _ in range(10):
-            yield C.gen_coords(rng, self.times)
+            yield self.with_zones(rng, C.gen_coords(rng, self.times))
 
     def search_cases(self, rng):
         """failing-input search after a broken correspondence: three more draws of the quick generators (the thorough
@@ -419,10 +451,8 @@ class P(Prop):
     def c_build(self, case):
         cls = self.COORDS[case["cls"]]
         tr = self.Track([], 1)
-        for p, tms in zip(case["pos"], case["tms"]):
-            t = self.T.readUnixTime(tms // 1000)
-            t.ms = tms % 1000
-            tr.addObs(self.Obs(cls(p[0], p[1], p[2]), t))
+        for p, tms, z in zip(case["pos"], case["tms"], W.zones_of(case)):
+            tr.addObs(self.Obs(cls(p[0], p[1], p[2]), self.stamp(tms, z)))
         for name, col in case["feats"]:
             tr.createAnalyticalFeature(name)
             for i, v in enumerate(col):
@@ -449,6 +479,8 @@ class P(Prop):
                     r = list(self.computeAbsCurv(tr))
                 elif op == "s":
                     r = list(self.estimate_speed(tr))
+                elif op == "S":
+                    r = list(tr.estimate_speed())
                 elif op == "d":
                     r = list(tr.addAnalyticalFeature(self.ds, "ds"))
                 elif op == "c":
@@ -463,21 +495,22 @@ class P(Prop):
                 r = self.c_err(e)
             rets.append(r)
         feats = [[nm, list(tr.getAnalyticalFeature(nm))] for nm in tr.getListAnalyticalFeatures()]
-        xyz, tms, classes = [], [], []
+        xyz, tms, classes, zones = [], [], [], []
         for i in range(tr.size()):
             o = tr.getObs(i)
             xyz.append([o.position.getX(), o.position.getY(), o.position.getZ()])
             classes.append(type(o.position).__name__)
             s = o.timestamp
             tms.append(calendar.timegm((s.year, s.month, s.day, s.hour, s.min, s.sec)) * 1000 + s.ms)
-        return {"rets": rets, "feats": feats, "xyz": xyz, "classes": classes, "tms": tms, "n": tr.size()}
+            zones.append(s.zone)
+        return {"rets": rets, "feats": feats, "xyz": xyz, "classes": classes, "tms": tms, "zones": zones, "n": tr.size()}
 
     def c_requests(self, case):
         enc = lambda v: "nan" if v == "nan" else fbits(v)
         cols = [tok_list(enc(float(p[k])) for p in case["pos"]) for k in range(3)]
         ts = tok_list(fbits((t // 1000) + (t % 1000) / 1000.0) for t in case["tms"])
         feats = tok_list((nm + ":" + tok_list(enc(v) for v in col) for nm, col in case["feats"]), sep=";")
-        return ["C17.coords %s %s %s %s %s %s %s" % (case["cls"], cols[0], cols[1], cols[2], ts, feats, case["ops"])]
+        return ["C17.coords %s %s %s %s %s %s %s" % (case["cls"], cols[0], cols[1], cols[2], ts, feats, case["ops"].replace("S", "s"))]
 
     def c_decode(self, case, replies):
         r = replies[0]
@@ -500,7 +533,8 @@ class P(Prop):
             feats.append([nm, [bitsf(w) for w in untok(col)]])
         # the model has no operation that writes a position or a stamp (`CinCoords.pure_coords`): they are the inputs
         return {"rets": rets, "feats": feats, "xyz": [[float(v) for v in p] for p in case["pos"]],
-                "classes": [self.COORDS[case["cls"]].__name__] * len(case["pos"]), "tms": list(case["tms"]), "n": len(case["pos"])}
+                "classes": [self.COORDS[case["cls"]].__name__] * len(case["pos"]), "tms": list(case["tms"]), "zones": W.zones_of(case),
+                "n": len(case["pos"])}
 
     def c_spec(self, case, out):
         if "err" in out:
@@ -514,6 +548,9 @@ class P(Prop):
             return "the class of the position objects changed: %s" % out["classes"]
         if out["tms"] != tms:
             return "timestamps changed: %s -> %s" % (tms, out["tms"])
+        zones = W.zones_of(case)
+        if out["zones"] != zones:
+            return "timestamps changed: their zone fields were %s, are %s" % (zones, out["zones"])
         given = {nm for nm, _ in case["feats"]}
         after = dict((nm, col) for nm, col in out["feats"])
         for nm, col in case["feats"]:
@@ -533,8 +570,8 @@ class P(Prop):
                 msg = self.chk_abscurv_rng(r, legs)
             elif op == "d":
                 msg = self.chk_ds_rng(r, legs)
-            elif op == "s" and "speed" not in given:
-                msg = self.chk_speed_rng(r, cls, pos, tms)
+            elif op in "sS" and "speed" not in given:
+                msg = self.chk_speed_rng(r, cls, pos, tms, zones)
             elif op == "c":
                 lo, hi, at = math.fsum(l[0] for l in legs), math.fsum(l[1] for l in legs), sum(l[2] for l in legs)
                 if isnan(r) or r < lo - at - 1e-9 * lo or r > hi + at + 1e-9 * hi:
@@ -550,10 +587,10 @@ class P(Prop):
             if msg:
                 return "operation %d (%s) on a track of %s: %s" % (j, op, self.COORDS[cls].__name__, msg)
         # the feature is observed both ways: what the call returned is what track['abs_curv'] / track['speed'] reads
-        for op, nm in (("a", "abs_curv"), ("s", "speed")):
-            last = [r for o, r in zip(case["ops"], out["rets"]) if o == op]
+        for op, nm in (("a", "abs_curv"), ("sS", "speed")):
+            last = [r for o, r in zip(case["ops"], out["rets"]) if o in op]
             if last and (nm not in after or not close(after[nm], last[-1], 0.0, 0.0)):
-                return "%s returned %s but track['%s'] reads %s" % ({"a": "computeAbsCurv", "s": "estimate_speed"}[op], last[-1], nm, after.get(nm))
+                return "%s returned %s but track['%s'] reads %s" % ({"a": "computeAbsCurv", "sS": "estimate_speed"}[op], last[-1], nm, after.get(nm))
         return None
 
     def chk_abscurv_rng(self, s, legs):
@@ -588,32 +625,49 @@ class P(Prop):
                 return "ds[%d] = %r, planimetric distance to the previous fix is %r" % (i + 1, d[i + 1], lo)
         return None
 
-    def chk_speed_rng(self, v, cls, pos, tms):
+    def chk_speed_rng(self, v, cls, pos, tms, zones=None):
+        """as chk_speed, the distance of each pair known as a range (lo, hi, absolute allowance); between stamps of different
+        zones the difference of the readings and the difference of the instants are both accepted as the elapsed time"""
         n = len(pos)
         if not isinstance(v, list) or len(v) != n:
             return "speed has %s values for %d fixes" % (len(v) if isinstance(v, list) else v, n)
         if any(tms[i] > tms[i + 1] for i in range(n - 1)):
             return None
         tmax = max(abs(t) for t in tms) / 1000.0
+        zmax = 3600.0 * max([abs(z) for z in zones or [0]])       # instants = readings shifted by the zone: float seconds of that size
         for i in range(n):
             a, b = (1, 0) if i == 0 else (n - 1, n - 2) if i == n - 1 else (i + 1, i - 1)
-            el = Fraction(tms[a] - tms[b], 1000)
-            if el == 0:
-                if not isnan(v[i]):
-                    return "speed[%d] = %r although no time elapsed between fixes %d and %d (NaN expected)" % (i, v[i], b, a)
+            els = [Fraction(tms[a] - tms[b], 1000)]
+            if zones is not None and zones[a] != zones[b]:
+                els.append(els[0] - 3600 * (zones[a] - zones[b]))
+            if isnan(v[i]):
+                if all(el != 0 for el in els):
+                    return "speed[%d] is NaN although %s s elapsed between fixes %d and %d" % (i, float(els[0]), b, a)
                 continue
+            if all(el == 0 for el in els):
+                return "speed[%d] = %r although no time elapsed between fixes %d and %d (NaN expected)" % (i, v[i], b, a)
             lo, hi, at = C.leg_range(cls, pos[a], pos[b])
-            rel = 1e-9 + (4 * ulp(tmax) / float(el) if any(t % 1000 for t in tms) else 0.0)
-            wlo, whi = lo / float(el), hi / float(el)
-            if isnan(v[i]) or v[i] < wlo - rel * wlo - at / float(el) or v[i] > whi + rel * whi + at / float(el):
-                return ("speed[%d] = %r, expected distance(fix %d, fix %d) / elapsed = %r / %s = %r"
-                        % (i, v[i], b, a, lo, float(el), wlo))
+            bad = None
+            for el in els:
+                if el == 0:
+                    continue
+                fe = float(el)
+                tm = tmax + zmax
+                rel = 1e-9 + (4 * ulp(tm) / abs(fe) if any(t % 1000 for t in tms) else 0.0)
+                wlo, whi = sorted((lo / fe, hi / fe))
+                if wlo - rel * abs(wlo) - at / abs(fe) <= v[i] <= whi + rel * abs(whi) + at / abs(fe):
+                    bad = None
+                    break
+                bad = bad or ("speed[%d] = %r, expected distance(fix %d, fix %d) / elapsed = %r / %s = %r"
+                              % (i, v[i], b, a, lo, fe, lo / fe))
+            if bad:
+                return bad
         return None
 
     def c_describe(self, case):
         n = len(case["pos"])
         t = case["tms"]
-        return {"kind": case["kind"], "n": n, "ops": "".join(sorted(set(case["ops"]))), "pre": bool(case["feats"]),
+        return {"kind": case["kind"], "n": n, "ops": "".join(sorted(set(case["ops"]))), "pre": bool(case["feats"]), "zones": self.zone_tag(W.zones_of(case)),
                 "repeated_pos": any(case["pos"][i] == case["pos"][i + 1] for i in range(n - 1)),
                 "repeated_time": any(t[i] == t[i + 1] for i in range(n - 1))}
 
@@ -627,10 +681,8 @@ class P(Prop):
         if not W.valid_case(case):
             return {"invalid": True}
         H = []
-        for p, tms in zip(case["pos"], case["tms"]):
-            t = self.T.readUnixTime(tms // 1000)
-            t.ms = tms % 1000
-            H.append(self.Obs(self.ENU(p[0], p[1], p[2]), t))
+        for p, tms, z in zip(case["pos"], case["tms"], W.zones_of(case)):
+            H.append(self.Obs(self.ENU(p[0], p[1], p[2]), self.stamp(tms, z)))
         tracks = [self.Track(list(H), 1)]
         ops = []
         for op in case["hist"]:
@@ -678,7 +730,7 @@ class P(Prop):
         out = []
         for o in H:
             s, c = o.timestamp, o.position
-            out.append({"xyz": [c.E, c.N, c.U], "t": [s.year, s.month, s.day, s.hour, s.min, s.sec, s.ms], "nf": len(o.features)})
+            out.append({"xyz": [c.E, c.N, c.U], "t": [s.year, s.month, s.day, s.hour, s.min, s.sec, s.ms, s.zone], "nf": len(o.features)})
         return out
 
     def w_apply(self, H, tracks, op):
@@ -729,6 +781,9 @@ class P(Prop):
         if kind == "et":
             setattr(tr.getObs(op[2]).timestamp, op[3], op[4])
             return None
+        if kind == "tz":
+            tr.setTimeZone(op[2])
+            return None
         if kind == "add":
             new = tr + tracks[op[2]]
         elif kind == "ext":
@@ -752,13 +807,12 @@ class P(Prop):
         for p, tms in zip(case["pos"], case["tms"]):
             f = W.fields_of(tms)
             pool.append(",".join([enc(p[0]), enc(p[1]), enc(p[2])] + [str(f[k]) for k in W.FIELDS]))
+        pool = [o + "," + str(z) for o, z in zip(pool, W.zones_of(case))]
         ops = []
         for op in case["hist"]:
             kind = op[0]
-            if kind in ("a", "f", "d", "I", "E", "D", "L", "c", "cp"):
+            if kind in ("a", "s", "S", "f", "d", "I", "E", "D", "L", "c", "cp"):
                 ops.append("%s:%d" % (kind, op[1]))
-            elif kind in ("s", "S"):
-                ops.append("s:%d" % op[1])
             elif kind in ("g", "rm", "q"):
                 ops.append("%s:%d:%s" % (kind, op[1], op[2]))
             elif kind == "w":
@@ -771,6 +825,8 @@ class P(Prop):
                 ops.append("ex:%d:%d:%s:%s" % (op[1], op[2], op[3], enc(op[4])))
             elif kind == "et":
                 ops.append("et:%d:%d:%s:%d" % (op[1], op[2], op[3], op[4]))
+            elif kind == "tz":
+                ops.append("tz:%d:%d" % (op[1], op[2]))
         return ["C17.world %s %s %s" % (case["mode"], tok_list(pool, ";"), tok_list(ops, ";"))]
 
     def w_decode(self, case, replies):
@@ -807,7 +863,7 @@ class P(Prop):
             hp = []
             for o in untok(heap, ";"):
                 w = o.split(",")
-                hp.append({"xyz": [dec(w[0]), dec(w[1]), dec(w[2])], "t": [int(x) for x in w[3:10]], "nf": int(w[10])})
+                hp.append({"xyz": [dec(w[0]), dec(w[1]), dec(w[2])], "t": [int(x) for x in w[3:10]] + [int(w[11])], "nf": int(w[10])})
             rec["heap"] = hp
             ops.append(rec)
         tracks = []
@@ -853,24 +909,42 @@ class P(Prop):
                 return "ds[%d] = %r, planimetric distance to the previous fix is %r" % (i + 1, d[i + 1], legs[i])
         return None
 
-    def chk_speed(self, v, pos, tms):
+    def chk_speed(self, v, pos, tms, zones=None):
+        """the clauses of the statement about speed. `tms`: clock readings (ms) of the stamps, `zones`: their zone fields.
+        "The time elapsed between" two stamps of the SAME zone is the difference of their readings. Between stamps of
+        DIFFERENT zones the statement leaves it open whether it is the difference of the readings (the library's t2 - t1,
+        which does not read `zone`) or of the instants (readings brought to one zone): either is accepted there."""
         n = len(pos)
         if not isinstance(v, list) or len(v) != n:
             return "speed has %s values for %d fixes" % (len(v) if isinstance(v, list) else v, n)
         tmax = max(abs(t) for t in tms) / 1000.0
+        zmax = 3600.0 * max([abs(z) for z in zones or [0]])       # instants = readings shifted by the zone: float seconds of that size
         for i in range(n):
             a, b = (1, 0) if i == 0 else (n - 1, n - 2) if i == n - 1 else (i + 1, i - 1)
-            el = Fraction(tms[a] - tms[b], 1000)
-            if el == 0:
-                if not isnan(v[i]):
-                    return "speed[%d] = %r although no time elapsed between fixes %d and %d (NaN expected)" % (i, v[i], b, a)
+            els = [Fraction(tms[a] - tms[b], 1000)]
+            if zones is not None and zones[a] != zones[b]:
+                els.append(els[0] - 3600 * (zones[a] - zones[b]))
+            if isnan(v[i]):
+                if all(el != 0 for el in els):
+                    return ("speed[%d] is NaN although %s s elapsed between fixes %d and %d" % (i, float(els[0]), b, a))
                 continue
+            if all(el == 0 for el in els):
+                return "speed[%d] = %r although no time elapsed between fixes %d and %d (NaN expected)" % (i, v[i], b, a)
             d = math.hypot(pos[a][0] - pos[b][0], pos[a][1] - pos[b][1])
-            want = d / float(el)
-            rel = 1e-9 + (4 * ulp(tmax) / float(el) if any(t % 1000 for t in tms) else 0.0)
-            if isnan(v[i]) or abs(v[i] - want) > rel * max(abs(want), 1e-300):
-                return ("speed[%d] = %r, expected distance(fix %d, fix %d) / elapsed = %r / %s = %r"
-                        % (i, v[i], b, a, d, float(el), want))
+            bad = None
+            for el in els:
+                if el == 0:
+                    continue
+                want = d / float(el)
+                tm = tmax + zmax
+                rel = 1e-9 + (4 * ulp(tm) / abs(float(el)) if any(t % 1000 for t in tms) else 0.0)
+                if abs(v[i] - want) <= rel * max(abs(want), 1e-300):
+                    bad = None
+                    break
+                bad = bad or ("speed[%d] = %r, expected distance(fix %d, fix %d) / elapsed = %r / %s = %r"
+                              % (i, v[i], b, a, d, float(el), want))
+            if bad:
+                return bad
         return None
 
     def w_spec(self, case, out):
@@ -879,19 +953,43 @@ class P(Prop):
         if out.get("invalid"):
             return None
         sym = W.Sym(case)
+        prev_heap = []
         for j, (op, rec) in enumerate(zip(case["hist"], out["ops"])):
-            msg = self.w_check(sym, op, rec)
+            msg = self.w_check(sym, op, rec, prev_heap)
             if msg:
                 return "operation %d %s: %s" % (j, json_short(op), msg)
+            prev_heap = rec["heap"]
         return None
 
-    def w_check(self, sym, op, rec):
-        kind, k = op[0], op[1]
+    def w_sync(self, sym, k, table, heap):
+        """WHICH names a track lists and how many feature slots an observation carries are the implementation's business
+        (the statement speaks of abs_curv and speed, not of the temporary ds nor of what a derived track inherits): the
+        bookkeeping adopts what the implementation's table shows; a name that is gone is no longer a valid computation"""
+        if sym.lost:
+            return
+        t = sym.tracks[k]
+        t["names"] = list(table["names"])
+        t["valid"] &= set(t["names"])
+        for h, o in enumerate(heap[:len(sym.slots)]):
+            sym.slots[h] = o["nf"]
+
+    def w_check(self, sym, op, rec, prev_heap=()):
         if sym.lost:
             return None
+        self.w_sync(sym, op[1], rec["pre"], prev_heap)
+        msg = self.w_check1(sym, op, rec)
+        self.w_sync(sym, op[1], rec["post"], rec["heap"])
+        return msg
+
+    def w_check1(self, sym, op, rec):
+        kind, k = op[0], op[1]
+        applicable = sym.valid_op(op)        # on the table the implementation shows: the names the operation refers to are listed
         ok = sym.ok(k)
         mono = sym.monotone(k)
-        info = sym.apply(op)                 # bookkeeping: positions / stamps after edits, names, slots, validity
+        if not applicable and (kind in W.NEW_OPS or kind in W.EDIT_OPS):
+            sym.lost = True                  # cannot happen on a valid case (indices only): the oracle stops rather than guess
+            return None
+        info = sym.apply(op) if applicable else {"check": None}     # bookkeeping: positions / stamps after edits, names, slots, validity
         ids = sym.tracks[k]["ids"]
         n = len(ids)
         heap = rec["heap"]
@@ -924,9 +1022,9 @@ class P(Prop):
         for h, o in enumerate(heap[:len(sym.pos)]):
             if not close(o["xyz"], sym.pos[h], 0.0, 0.0):
                 return "position of observation %d is %s, expected %s" % (h, o["xyz"], sym.pos[h])
-            if o["t"] != [sym.fld[h][f] for f in W.FIELDS]:
-                return "timestamp of observation %d is %s, expected %s" % (h, o["t"], [sym.fld[h][f] for f in W.FIELDS])
-        if kind in W.NEW_OPS or kind in W.EDIT_OPS:
+            if o["t"] != [sym.fld[h][f] for f in W.ZFIELDS]:
+                return "timestamp of observation %d is %s (year, month, day, hour, min, sec, ms, zone), expected %s" % (h, o["t"], [sym.fld[h][f] for f in W.ZFIELDS])
+        if kind in W.NEW_OPS or kind in W.EDIT_OPS or not applicable:
             return None
         if not ok:
             if "err" in rec:
@@ -961,7 +1059,7 @@ class P(Prop):
         if chk == "ds":
             return self.chk_ds(r, legs)
         if chk == "speed":
-            return self.chk_speed(r, pos, [sym.tms(h) for h in ids]) if mono else None
+            return self.chk_speed(r, pos, [sym.tms(h) for h in ids], [sym.zone(h) for h in ids]) if mono else None
         if chk == "curvabs":
             total = math.fsum(legs)
             if isnan(r) or abs(r - total) > 1e-9 * max(total, 1e-300):
@@ -992,6 +1090,8 @@ class P(Prop):
             c = dict(case, hist=hist[:i] + hist[i + 1:])
             if W.valid_case(c) and (known or W.list_init_on_foreign_slots(c) is None):
                 yield c
+        if any(case.get("zones") or []):
+            yield {k: v for k, v in case.items() if k != "zones"}
         t0 = min(case["tms"])
         base = t0 - t0 % 3600000
         if base:
@@ -1000,7 +1100,8 @@ class P(Prop):
     def w_describe(self, case):
         kinds = [op[0] for op in case["hist"]]
         return {"kind": case["kind"] + "-" + case["mode"], "n": len(case["pos"]), "len": len(kinds),
-                "shared": any(k in ("add", "ext", "sl") for k in kinds), "edits": any(k in ("ex", "et") for k in kinds),
+                "shared": any(k in ("add", "ext", "sl") for k in kinds), "edits": any(k in ("ex", "et", "tz") for k in kinds),
+                "zones": "edited" if any(op[0] == "tz" or (op[0] == "et" and op[3] == "zone") for op in case["hist"]) else self.zone_tag(W.zones_of(case)),
                 "ops": "".join(sorted(set(k[0] for k in kinds)))}
 
     def w_nontrivial(self, case):
